@@ -9,7 +9,7 @@ from ..model import body_stmts, canon, dotted, kwarg, norm, walk_no_nested
 from . import ilp, nbk
 from .c01 import rule_nullable_index
 from .c04 import array_layout
-from .common import assigned_value, count_if, else_part, enclosing, expand_locals, prog, resolve_local, stores_to
+from .common import assigned_value, conditions_at, count_if, else_part, enclosing, expand_locals, prog, resolve_local, stores_to
 
 AVG = "avg_num_annotations_per_annotator"
 
@@ -87,12 +87,18 @@ def rule_alignment_level(ctx: Ctx):
                   bad_detail=f"recomputed alignment disorder is `{norm(st[0].value) if st else None}`", key=f"{qn}:value")
     a = ctx.fn(f"Alignment.{AVG}", "R-C03-3")
     an = a.self_name
-    ifs = [i for i in walk_no_nested(a.node) if isinstance(i, ast.If) and norm(i.test) == f"{an}.continuum is not None"]
+    ifs = [i for i in walk_no_nested(a.node) if isinstance(i, ast.If) and norm(i.test) in (f"{an}.continuum is not None", f"{an}.continuum is None")]
     ok = False
-    if len(ifs) == 1:
-        r1 = [s for s in ifs[0].body if isinstance(s, ast.Return)]
-        r2 = [s for s in else_part(a.node, ifs[0]) if isinstance(s, ast.Return)]
-        ok = bool(r1) and norm(r1[0].value) == f"{an}.continuum.{AVG}" and bool(r2) and \
+    # which value is returned with / without an attached continuum (whatever the polarity of the test)
+    r1, r2 = [], []
+    for r in [s for s in walk_no_nested(a.node) if isinstance(s, ast.Return)]:
+        for t, truth in conditions_at(a.node, r):
+            if isinstance(t, ast.Compare) and len(t.ops) == 1 and norm(t.left) == f"{an}.continuum" and isinstance(t.comparators[0], ast.Constant) \
+                    and t.comparators[0].value is None:
+                attached = (isinstance(t.ops[0], ast.IsNot) and truth) or (isinstance(t.ops[0], ast.Is) and not truth)
+                (r1 if attached else r2).append(r)
+    if len(r1) == 1 and len(r2) == 1:
+        ok = norm(r1[0].value) == f"{an}.continuum.{AVG}" and \
             canon(r2[0].value) in {canon(f"sum((u.nb_units for u in {an})) / {an}.num_annotators"),
                                    canon(f"sum((u.nb_units for u in {an}.unitary_alignments)) / {an}.num_annotators")}
     ctx.check(ok, "R-C03-3", a, ifs[0] if ifs else None,
